@@ -294,7 +294,7 @@ impl Sys for IfaceSys {
             let exp = c.expected();
             let name = match c {
                 TCall::Cmd { .. } => "send_command",
-                TCall::Pixels { .. } => "send_pixels",
+                TCall::Pixels { .. } | TCall::PixelsUnfused { .. } => "send_pixels",
                 TCall::Repeat { .. } => "send_repeated_pixel",
             };
             match out {
